@@ -319,12 +319,15 @@ ServeErr(kind) ==
 RangeReq == readCur > 0 /\ readMax > 0                                       \* http.go:375
 SrcOf(x) == IF x = "served" THEN scn.served ELSE scn.intended
 Srcs == IF scn.served = scn.intended THEN {"served"} ELSE {"served", "intended"}
-Replies ==
+AllReplies ==
   IF RangeReq
   THEN [src : Srcs, start : {readCur, 0, readCur + 1}, cl : {"right"},
         cr : {"honest", "lying", "absent"}, cut : {NoCut} \cup 0..(MaxLen + 1)]
   ELSE [src : Srcs, start : {0}, cl : {"right", "absent", "plus", "minus"},
         cr : {"honest"}, cut : {NoCut} \cup 0..(MaxLen + 1)]
+
+\* what the registry may answer; generator configs narrow it (Replies <- HonestReplies)
+Replies == AllReplies
 
 ServeOK(r) ==
   LET full == Drop(SrcOf(r.src), r.start)
